@@ -105,8 +105,25 @@ class BlockingStore:
                 self.cv.notify_all()
         return g
 
+    def csr(self, gid):
+        # every adjacency lookup of a walk gives the other workers a turn, so the walks of different graphs interleave
+        # step by step (state that the walks share would be visible as a difference from the sequential run)
+        return _YieldingAdj(self.inner.csr(gid))
+
     def __getattr__(self, n):
         return getattr(self.inner, n)
+
+
+class _YieldingAdj(dict):
+    def __contains__(self, k):
+        import time as _t
+        _t.sleep(0.0004)
+        return dict.__contains__(self, k)
+
+    def __getitem__(self, k):
+        import time as _t
+        _t.sleep(0.0004)
+        return dict.__getitem__(self, k)
 
 
 def _t1_world(seed, ngraphs=3):
@@ -132,6 +149,9 @@ def t1_case(case) -> List[Tuple[str, str]]:
     fails: List[Tuple[str, str]] = []
     base = {"t1": {"cache": {"enabled": False}}}
     cfg_seq = E.validated_cfg(base)
+    # (the perf caps of T1 are configured in both runs: bounded visited set / dedupe window are per-walk structures)
+    if seed % 2:
+        base["perf"] = {"enabled": True, "t1": {"caps": {"visited": 64}, "dedupe_window": 8}}
     cfg_par = E.validated_cfg(E.deep_merge(base, {"perf": {"enabled": True, "parallel": {"enabled": True, "t1": True, "max_workers": workers}}}))
     st = E.mk_state(graphs, [])
     ref = t1_propagate(E.mk_ctx(cfg_seq), st, text)
@@ -216,15 +236,40 @@ def t2_case(case) -> List[Tuple[str, str]]:
     def spy_rp(tasks, **k):
         fanouts.append(len(tasks))
         return real_rp(tasks, **k)
+    # a slice budget on the retrieval (scheduler slices): it limits what the turn USES, not what either path retrieves
+    sb = r.choice([None, None, 0, 1, 2])
+    # a long-lived index: in every third case the index served another memory of the same size before (shards were
+    # enumerated then), was cleared and refilled with this world's episodes
+    reused = r.random() < 0.34
+
+    def ctx_for(cfg):
+        c = E.mk_ctx(cfg, "A")
+        if sb is not None:
+            c.slice_budgets = {"t2_k": sb}
+        return c
     try:
         for cfg in (E.validated_cfg(over), E.validated_cfg(E.deep_merge(over, par))):
-            st = E.mk_state(E.DEFAULT_GRAPHS, eps)
             t1 = type("T1", (), {"graph_deltas": [], "metrics": {}})()
+            if reused:
+                other = [dict(e, id="old-" + str(e["id"]), text="weather " + str(e.get("text", ""))) for e in reversed(eps)]
+                for e, o in zip(reversed(eps), other):
+                    o["vec_full"] = e["vec_full"]
+                st = E.mk_state(E.DEFAULT_GRAPHS, other)
+                try:
+                    t2_semantic(ctx_for(cfg), st, text, t1)
+                except Exception:
+                    pass
+                idx = st["mem_index"]
+                idx.clear()
+                for e in eps:
+                    idx.add(dict(e))
+            else:
+                st = E.mk_state(E.DEFAULT_GRAPHS, eps)
             if case.get("jitter"):
                 sys.setswitchinterval(1e-6)
             try:
                 with E.patched_attr(T2C, run_parallel=spy_rp):
-                    res = t2_semantic(E.mk_ctx(cfg, "A"), st, text, t1)
+                    res = t2_semantic(ctx_for(cfg), st, text, t1)
             except Exception as e:
                 return [("T2ParEqSeq", f"seed={seed} n={n} workers={workers}: t2_semantic raised {type(e).__name__}: {e} (parallel={cfg is not None and 'perf' in cfg and cfg['perf'].get('enabled')})")]
             finally:
@@ -238,7 +283,7 @@ def t2_case(case) -> List[Tuple[str, str]]:
     fails = []
     cfgdesc = {k: v for k, v in over["t2"].items() if k != "cache"}
     if ra != rb:
-        fails.append(("T2ParEqSeq", f"seed={seed} n={n} workers={workers} cfg={cfgdesc} text={text!r}: sequential {ra} vs parallel {rb}"))
+        fails.append(("T2ParEqSeq", f"seed={seed} n={n} workers={workers} cfg={cfgdesc} text={text!r} slice t2_k={sb} reused index={reused}: sequential {ra} vs parallel {rb}"))
     if a.graph_deltas_residual != b.graph_deltas_residual:
         fails.append(("T2ParEqSeq", f"seed={seed} n={n} workers={workers}: residual deltas differ"))
     keys = ("k_returned", "k_used", "k_residual", "tier_sequence", "sim_stats", "score_stats")
